@@ -8,6 +8,8 @@
 #[cfg(kani)]
 mod verif_kani {
     use super::*;
+    #[allow(unused_imports)]
+    use crate::ChunkOffset;
 
     #[kani::proof]
     #[kani::unwind(7)]
